@@ -19,7 +19,7 @@ func propertyTable() map[string]PropertyCfg {
 				"bytes.IndexAny(s, \"\\r\\n\"): least index of a CR or LF, or -1",
 			},
 			NotDecided: []string{"that the parse result as a whole is a function of the bytes follows from the three mechanisms only with the assumptions above; the readers' bodies above the scanner/block reader are deterministic sequential code (no other input source: see the reader-flow obligations)"},
-			Special: c17Special,
+			Special:    c17Special,
 		},
 		"C16": {ID: "C16",
 			Assumptions: []string{
